@@ -62,6 +62,7 @@ def main():
     ap.add_argument('--seeds', action='store_true'); ap.add_argument('--benign', action='store_true')
     ap.add_argument('--only', nargs='*'); ap.add_argument('--props', nargs='*'); ap.add_argument('-j', type=int, default=16)
     ap.add_argument('-v', action='store_true')
+    ap.add_argument('--write-meta', action='store_true', help='refresh detected_by / checks_not_silent of seeded/<id>/meta.json and not_silent_now of benign/<id>/meta.json from this run (all properties only)')
     a = ap.parse_args()
     if not a.seeds and not a.benign:
         a.seeds = a.benign = True
@@ -124,6 +125,38 @@ def main():
                             print('         ', p, x)
             elif a.v:
                 print('benign %-5s silent' % sid)
+    if a.write_meta and not a.props:
+        for (kind, sid), r in sorted(by.items()):
+            mp = os.path.join(ROOT, 'seeded' if kind == 's' else 'benign', sid, 'meta.json')
+            if not os.path.exists(mp):
+                continue
+            m = json.load(open(mp))
+            if kind == 's':
+                checks, det = {}, []
+                for p, (rc, f) in sorted(r.items()):
+                    if rc == 0:
+                        continue
+                    fl = []
+                    for x in f:
+                        if x.startswith('ANALYSIS-ERROR'):
+                            checks.setdefault(p, {})['error'] = x[:300]
+                            continue
+                        parts = x.split('  ')
+                        if len(parts) >= 2:
+                            fl.append((parts[0].strip() + ' ' + parts[1].split('  at ')[0].strip())[:160])
+                    checks.setdefault(p, {}).update({'exit': rc, 'findings': fl})
+                    if rc == 1:
+                        seen = []
+                        for x in fl:
+                            if x.split(' ')[0] not in [y.split(' ')[0] for y in seen]:
+                                seen.append(x)
+                        det += seen[:3]
+                m['checks_not_silent'] = checks
+                m['detected_by'] = det
+                m['detected'] = bool(det)
+            else:
+                m['not_silent_now'] = {p: rc for p, (rc, f) in sorted(r.items()) if rc != 0}
+            json.dump(m, open(mp, 'w'), indent=1)
     ns = sum(1 for k in by if k[0] == 's'); nb = sum(1 for k in by if k[0] == 'b')
     print('%d seeds, %d benign; %d not as wanted' % (ns, nb, bad))
     return 0
